@@ -77,3 +77,21 @@ Lemma euclidean_twin2 k_a0 k_a1 k_a2 k_b0 k_b1 k_b2 a0 a1 a2 b0 b1 b2 :
 Proof. unfold C07_euclidean_b2_R, C07_euclidean_s_R. twin_q. Qed.
 Lemma rmse_twin a0 a1 a2 b0 b1 b2 : C07_rmse_b1_R a0 a1 a2 b0 b1 b2 = C07_rmse_s_R a0 a1 a2 b0 b1 b2.
 Proof. unfold C07_rmse_b1_R, C07_rmse_s_R. twin_q. Qed.
+
+(* qad: the batch branch clips 2 (q1.q2)^2 - 1 to [-1,1]; over the reals the clip is the identity (Cauchy-Schwarz again) *)
+Lemma sq_le1 d : Rabs d <= 1 -> -1 <= 2 * d ^ 2 - 1 <= 1.
+Proof. intros H. assert (d * d <= 1) by (unfold Rabs in H; destruct (Rcase_abs d); nra). split; nra. Qed.
+Ltac unclip_qad :=
+  repeat match goal with
+  | |- context [Rmin (Rmax (2 * ?d ^ 2 - 1) (-1)) 1] =>
+      rewrite (clip_id (2 * d ^ 2 - 1)) by (apply sq_le1; apply cs4; apply normed_le1)
+  end.
+Lemma qad_twin_partial a b c d w x y z :
+  C07_qad_b1_R a b c d w x y z = C07_qad_s_R a b c d w x y z \/ C07_qad_s_R a b c d w x y z = Val [0].
+Proof. unfold C07_qad_b1_R, C07_qad_s_R. cbv zeta. unclip_qad. repeat (head_dec; try (right; reflexivity)); left; same_val. Qed.
+
+(* rmse_matrices: sqrt(mean over 9) vs sqrt(mean of row means) *)
+Lemma rmse_matrices_twin r00 r01 r02 r10 r11 r12 r20 r21 r22 s00 s01 s02 s10 s11 s12 s20 s21 s22 :
+  C07_rmse_matrices_b1_R r00 r01 r02 r10 r11 r12 r20 r21 r22 s00 s01 s02 s10 s11 s12 s20 s21 s22 =
+  C07_rmse_matrices_s_R r00 r01 r02 r10 r11 r12 r20 r21 r22 s00 s01 s02 s10 s11 s12 s20 s21 s22.
+Proof. unfold C07_rmse_matrices_b1_R, C07_rmse_matrices_s_R. cbv zeta. val_eq. f_equal. field. Qed.
